@@ -1046,9 +1046,9 @@ Proof.
   rewrite !cat_cons in E. simpl fbytes in E. destruct (sapp_inv_len _ _ _ _ L E). contradiction.
 Qed.
 
-Lemma p_F4_false_by_shift fx H a b : p_F4_shift fx H a b = false -> p_F4 fx H a b = false.
+Lemma p_F4_false_by_shift fx H a b : p_F4k_shift fx H a b = false -> p_F4k fx H a b = false.
 Proof.
-  intro S. destruct (p_F4 fx H a b) eqn:P; [|reflexivity]. apply p_F4_in_shift in P. congruence.
+  intro S. destruct (p_F4k fx H a b) eqn:P; [|reflexivity]. apply p_F4k_in_shift in P. congruence.
 Qed.
 
 (** two look-ups at endpoints whose hashed bytes differ do not collide (SHA-256 without collisions) *)
@@ -1058,9 +1058,9 @@ Lemma p_F4_false_cross fx H a b :
   auth_collide (e_auth (eff_ep (st_inst a))) (e_auth (eff_ep (st_inst b))) = false ->
   (exists ra, opt_fields fx H a = FX (ep_hash fx H (st_ho a) (eff_ep (st_inst a))) :: ra) ->
   (exists rb, opt_fields fx H b = FX (ep_hash fx H (st_ho b) (eff_ep (st_inst b))) :: rb) ->
-  p_F4 fx H a b = false.
+  p_F4k fx H a b = false.
 Proof.
-  intros I L E A [ra Ra] [rb Rb]. unfold p_F4. rewrite Ra, Rb, A.
+  intros I L E A [ra Ra] [rb Rb]. unfold p_F4k. rewrite Ra, Rb, A.
   rewrite collide_heads.
   - unfold collide at 1. rewrite E. simpl. now rewrite !andb_false_r.
   - unfold ep_hash, digest. now rewrite !L.
@@ -1075,9 +1075,9 @@ Lemma p_F4_false_same_ep fx H a b e ra rb :
   opt_fields fx H a = FX e :: ra -> opt_fields fx H b = FX e :: rb ->
   String.eqb (cat ra) (cat rb) = false ->
   ep_eqb (eff_ep (st_inst a)) (eff_ep (st_inst b)) = true ->
-  p_F4 fx H a b = false.
+  p_F4k fx H a b = false.
 Proof.
-  intros Ra Rb E P. unfold p_F4. rewrite Ra, Rb, P. unfold collide at 1.
+  intros Ra Rb E P. unfold p_F4k. rewrite Ra, Rb, P. unfold collide at 1.
   rewrite !cat_cons, eqb_app_prefix, E. simpl. now rewrite andb_false_r.
 Qed.
 
@@ -1134,9 +1134,11 @@ Proof.
   - intros fx H I L. unfold g_F4. apply exists_pair_intro_false. intros a b Ia Ib.
     destruct fx as [f1 f2 f3 f10 f6].
     repeat (destruct Ia as [<-|Ia]; [repeat (destruct Ib as [<-|Ib]; [
-      first [ apply p_F4_false_cross; [exact I|exact L|destruct f1; reflexivity|reflexivity|eexists; reflexivity|eexists; reflexivity]
-            | eapply p_F4_false_same_ep; [reflexivity|reflexivity|destruct f1; lazy; reflexivity|reflexivity]
-            | apply p_F4_false_by_shift; destruct f1; cbv -[String.length Nat.eqb Nat.leb negb orb andb]; rewrite !L; reflexivity ]
+      unfold p_F4; apply orb_false_iff; split;
+      [ first [ apply p_F4_false_cross; [exact I|exact L|destruct f1; reflexivity|reflexivity|eexists; reflexivity|eexists; reflexivity]
+              | eapply p_F4_false_same_ep; [reflexivity|reflexivity|destruct f1, f6; lazy; reflexivity|reflexivity]
+              | apply p_F4_false_by_shift; destruct f1, f6; cbv -[String.length Nat.eqb Nat.leb negb orb andb]; rewrite !L; reflexivity ]
+      | first [ reflexivity | destruct f6; reflexivity ] ]
       |]); destruct Ib|]).
     destruct Ia.
   - do 2 eexists. splits; try reflexivity. eexists. reflexivity.
